@@ -62,6 +62,7 @@ class C16Engine(C09.C09Engine):
         self.version = 0
         self.memo: Dict[Tuple[str, str], Tuple[int, Any]] = {}
         self.last_raised: Optional[Tuple[str, str, str]] = None
+        self.dead = False
         self.reg0 = self.registries()
 
     # ------------------------------------------------------------ helpers
@@ -218,8 +219,44 @@ class C16Engine(C09.C09Engine):
             self.count(f"probe:join-consumed.{lang}")
 
     # ------------------------------------------------------------ step
+    def orphans(self, ctx: Any) -> None:
+        """The caller keeps elements and lets go of the Database objects (`t = PyDBML(src, sql_renderer=R)['t']`).
+        An element stays attached - its database is whatever `element.database` says, not what the caller still
+        holds - so every text must stay what it was.  Last operation of a run: the engine is unusable afterwards."""
+        import gc
+        import weakref
+        hs = [h for h in self.w.m if self.kinds[h] in TOP + ("column",)]
+        before = {(h, lang): self._call(lambda: getattr(self.real[h], lang))
+                  for h in hs for lang in ("sql", "dbml") if not (lang == "sql" and self.kinds[h] not in HAS_SQL)}
+        refs = {}
+        for dbh in self.w.handles("db"):
+            refs[dbh] = weakref.ref(self.real[dbh])
+            self.real[dbh] = None
+        self.dead = True
+        gc.collect()
+        for dbh, r in refs.items():
+            holds = any(self.w.m[dbh][f] for f in ("tables", "refs", "enums", "groups", "notes")) or self.w.m[dbh]["project"]
+            self.count("fault:database-reference-dropped" + (":kept-alive-by-elements" if r() is not None else ":reclaimed"))
+            if holds and r() is None:
+                self.count("probe:database-reclaimed-although-it-has-elements")
+        for (h, lang), t0 in before.items():
+            t1 = self._call(lambda: getattr(self.real[h], lang))
+            if t1 != t0:
+                kind = self.kinds[h]
+                raise Violation(PROP, "dispatch", {"after": ctx, "render": [h, lang], "owner": self.owner_db(h),
+                                                   "with_database_held": t0 if isinstance(t0, list) else t0[:300],
+                                                   "after_caller_dropped_it": t1 if isinstance(t1, list) else t1[:300]},
+                                f"dispatch:after-database-reference-dropped:{kind}.{lang}")
+        self.count("probe:orphan-texts-unchanged", len(before))
+
     def step(self, op: List[Any], idx: int) -> str:
         ctx = {"index": idx, "op": op}
+        if self.dead:
+            return "veto"
+        if op[0] == "orphans":
+            self.orphans(ctx)
+            self.trace.append("orphans:accepted")
+            return "accepted"
         if op[0] == "render":
             _, h, lang = op
             if h not in self.w.m:
@@ -488,6 +525,10 @@ def generate(env: Env, rseed: int, thorough: bool):
                 ops.append(op)
             if eng.last_raised and not pending and g.random() < (0.15 if eng.last_raised[2] == "UnknownDatabaseError" else 0.8):
                 pending = chase_failure(g, eng, *eng.last_raised[:2])
+        if g.random() < 0.25:
+            op = ["orphans"]
+            eng.step(op, len(ops))
+            ops.append(op)
         final_probe = True
         eng.step(["render_all", 1], len(ops))   # run_ops() appends the same final probe
     except Violation as v:
